@@ -39,7 +39,11 @@ NARROW_LIMITS = [2 ** 7 - 1, 2 ** 8 - 1, 2 ** 15 - 1, 2 ** 16 - 1, 2 ** 31 - 1, 
 def fixed_cases(tier):
     """Per repr: small gapless and two-run enums whose MAX (resp. MIN) sits exactly on the limit of every integer type
     that fits - wrong-width bound tests and limit special cases (one probe per repr)."""
-    return [{"limits_matrix": r} for r in M.REPRS]
+    out = [{"limits_matrix": r} for r in M.REPRS]
+    # run-count matrix: exactly k runs for k around every power of two up to 300
+    for spec in C.run_count_specs():
+        out.append({"spec": spec, "cfg": S.simple_config(["try_from", "TryFrom", "into", "Into"]), "seed": 0})
+    return out
 
 
 def limits_modules(r):
